@@ -9,9 +9,11 @@ Definition grp_r (op : apiop) (a b c : expr) : res expr :=
 Definition differ (x y : res expr) : bool :=
   match x, y with Ok r1, Ok r2 => negb (expr_eqb r1 r2) | _, _ => false end.
 Definition sx := ESym [120%N]. Definition sy := ESym [121%N]. Definition sz := ESym [122%N].
-(* sqrt(x**2) * sqrt(x**2) * x   (DESIGN row 36) *)
+(* (x**2)**(1/2) * (x**2)**(1/2) * (x**2)**(-3/2): rational powers of a power *)
 Theorem C04_mul_assoc_refuted_nested_power :
-  let s := EPow (EPow sx (e_int 2)) e_half in differ (grp_l OMul s s sx) (grp_r OMul s s sx) = true.
+  let b := EPow sx (e_int 2) in
+  differ (grp_l OMul (EPow b e_half) (EPow b e_half) (EPow b (ENum (NRat (-3) 2))))
+         (grp_r OMul (EPow b e_half) (EPow b e_half) (EPow b (ENum (NRat (-3) 2)))) = true.
 Proof. vm_compute. reflexivity. Qed.
 (* sqrt(2) * sqrt(2) * 2**x   (DESIGN row 37) *)
 Theorem C04_mul_assoc_refuted_number_base :
